@@ -12,15 +12,19 @@ import (
 	"errors"
 	"fmt"
 	"iter"
+	"log"
 	"maps"
 	"math/bits"
+	"os"
 	"path"
+	"runtime"
 	"slices"
 	"sort"
 	"strconv"
 	"strings"
 	"sync"
 	"sync/atomic"
+	"time"
 	"unicode"
 	"unicode/utf8"
 
@@ -297,6 +301,19 @@ func H_STD() {
 		n := 0
 		slices.Chunk([]int{1, 2, 3}, 2)(func(c []int) bool { n += len(c); return true })
 		vx.Assert("STD", n == 3, "slices.Chunk")
+	case 9: // diagnostics and clocks a developer may sprinkle in
+		log.Printf("x=%d", x)
+		log.Println("hello")
+		fmt.Fprintf(os.Stderr, "debug %d\n", x)
+		fmt.Fprintln(os.Stdout, "debug")
+		t0 := time.Now()
+		d := time.Since(t0)
+		vx.Assert("STD", d >= 0, "time.Since is not negative")
+		_ = os.Getenv("IPFSLOG_DEBUG")
+		runtime.Gosched()
+		time.Sleep(time.Millisecond)
+		lg := log.New(os.Stderr, "p ", 0)
+		lg.Printf("y")
 	}
 	vx.Cover("std-done")
 }
